@@ -450,6 +450,47 @@ func (in *Interp) foreign(fn *types.Func, recv Value, x *ast.CallExpr) []Value {
 		out := in.OpaqueBytes("KUnwrap", [][]Value{blk.Args, cts}, 8*n+1, "RFC 3394 unwrap / integrity bit")
 		bad := out[8*n].(*Bits).Bits()[0]
 		return []Value{&Slice{Back: &Backing{E: cellsOf(out[:8*n])}, Hi: 8 * n, Cap: 8 * n, Elem: types.Typ[types.Uint8]}, &ErrVal{NonNil: bad}}
+	case "(*sync.Pool).Get":
+		// a pooled object has the shape of what New builds and the content its previous user left: every leaf is
+		// Stale until this user stores into it; an operation on a Stale value leaves the interpreter's subset
+		var ps *Struct
+		switch r := recv.(type) {
+		case *Struct:
+			ps = r
+		case *Ptr:
+			ps, _ = r.To.V.(*Struct)
+		}
+		if ps == nil || ps.F["New"] == nil {
+			in.fail(x, "sync.Pool.Get on %T", recv)
+		}
+		fv, ok := ps.F["New"].V.(*FuncVal)
+		if !ok {
+			in.fail(x, "sync.Pool without a New function (Get may return nil)")
+		}
+		var res []Value
+		if fv.Decl != nil {
+			res = in.callFunc(fv.Decl, nil, nil, nil)
+		} else if fv.Lit != nil {
+			res = in.callLit(fv.Lit, fv.Pkg, fv.Env, "func literal", nil)
+		} else {
+			in.fail(x, "sync.Pool New function value")
+		}
+		if len(res) != 1 {
+			in.fail(x, "sync.Pool New result")
+		}
+		obj := res[0]
+		if ifc, ok := obj.(*Iface); ok {
+			obj = ifc.Dyn
+		}
+		p, ok := obj.(*Ptr)
+		if !ok {
+			in.fail(x, "sync.Pool object is %T, not a pointer", obj)
+		}
+		p.To.V = staleValue(p.To.V)
+		return res
+	case "(*sync.Pool).Put":
+		in.args(x, sig)
+		return nil
 	case "(*sync.Once).Do":
 		// the function runs on the paths on which this Once has not fired yet
 		p, okp := recv.(*Ptr)
@@ -915,4 +956,23 @@ func hexDigit(c int64) int64 {
 		return c - 'A' + 10
 	}
 	return -1
+}
+
+// staleValue: v with every leaf replaced by Stale (the aggregate shape is kept, so element and field stores work).
+func staleValue(v Value) Value {
+	switch x := v.(type) {
+	case *Struct:
+		n := &Struct{T: x.T, F: map[string]*Cell{}, Order: x.Order}
+		for k, c := range x.F {
+			n.F[k] = &Cell{staleValue(c.V)}
+		}
+		return n
+	case *Array:
+		n := &Array{Elem: x.Elem}
+		for _, c := range x.E {
+			n.E = append(n.E, &Cell{staleValue(c.V)})
+		}
+		return n
+	}
+	return Stale{}
 }
